@@ -11,7 +11,11 @@ from mc import domains as D
 from mc.ref import ref_trace_codes
 from mc.callstyle import split_call
 from mc.space import chunked
-from checks.c09 import word_domains, lookups, ENDS
+from checks.c09 import word_domains, lookups
+from checks.c09 import ENDS as ENDS09
+
+# END tuples: success, failure, other values, and error words that are -1 as a C int / as a 64-bit word (ERESTART), EJUSTRETURN (-2)
+ENDS = list(ENDS09) + [((1 << 64) - 1, 0, 0, 0), (0xffffffff, 0, 0, 0), ((1 << 64) - 2, 0x55, 0, 0)]
 from pykdebugparser.traces_parser import TracesParser
 from pykdebugparser.trace_handlers import bsd, dyld, fsystem, mach, perf, trace, turnstile
 
@@ -169,7 +173,7 @@ class C17(Check):
     rule = ('complete tables: every registered decoder name (TracesParser.handlers) x the bundled code table parsed independently '
             '(name occurs; the id it is stored under in the mapping has clear qualifier bits; the name survives last-wins '
             'de-duplication of ids); per-family handler dicts pairwise disjoint; every *_nocancel entry has its base registered; '
-            'for every twin pair the product of START word domains (as C09) x 3 END tuples x {0,2} lookups: renderings equal up '
+            'for every twin pair the product of START word domains (as C09) x 6 END tuples (success, failure, other values, error words -1 as 32- and 64-bit words, -2) x {0,2} lookups: renderings equal up '
             'to the _nocancel suffix of the call name (the lookups\' paths contain the call\'s own name; every code of the table whose name starts with the base name, e.g. BSC_pread_extended_info, is nested in the window); and both twins printed twice by ONE PyKdebugParser object with byte-identical '
             'tuples, in both orders, through formatted_traces; and on ONE parser after a window of X / X_nocancel / both that cannot be decoded (enum word outside its members; path bytes that are not text): both twins render as on a fresh parser. Distinct by construction; non-trivial = twin comparison runs and table '
             'entries of decoders with a _nocancel twin.')
